@@ -48,6 +48,7 @@ type script struct {
 	invoked    int
 	gotFlusher bool
 	gotHijack  bool
+	gotCloseN  bool
 	sawBody    []byte
 	sawURLHost string
 }
@@ -106,6 +107,7 @@ func runScript(sim *simrt.Sim, w http.ResponseWriter, req *http.Request) {
 		w.WriteHeader(sc.status)
 	}
 	_, sc.gotFlusher = w.(http.Flusher)
+	_, sc.gotCloseN = w.(http.CloseNotifier) //nolint:staticcheck // the property is about what stays reachable
 	for i, n := range sc.chunks {
 		_, _ = w.Write(bytes.Repeat([]byte{byte('a' + i%26)}, n))
 		if sc.flush[i] {
@@ -405,6 +407,9 @@ func c20prop(r *simkit.Run) {
 			}
 			if !bufferAbove && !reflect.DeepEqual(rec.Informational, bare.Informational) {
 				r.Fail("informational", "informational responses at the client %v, the handler alone produces %v %s", rec.Informational, bare.Informational, ctxt())
+			}
+			if bareScript.gotCloseN && !probe.gotCloseN {
+				r.Fail("close-notifier", "the client writer offers CloseNotifier, the handler behind the stack does not see it %s", ctxt())
 			}
 			if !bufferAbove {
 				if !probe.gotFlusher {
